@@ -101,6 +101,11 @@ fn owned(profile: Profile, v: &Viol) -> bool {
 
 static VERBOSE: std::sync::atomic::AtomicBool = std::sync::atomic::AtomicBool::new(false);
 
+/// Tell the supervisor's watchdog that this worker is alive (ignored by everything else).
+pub fn heartbeat() {
+    raw_out("H\n");
+}
+
 fn raw_out(s: &str) {
     let mut o = std::io::stdout().lock();
     let _ = o.write_all(s.as_bytes());
